@@ -133,3 +133,15 @@ func W[T any](p *T, name string) *T {
 	}
 	return p
 }
+
+// SA wraps the first argument of append(x.f, ...) / append(global, ...): when the slice has spare capacity the
+// append writes the element after its end in place, into a backing array that struct copies and re-slices share.
+// That element is recorded as written, so that two threads appending in place to slices over one array are
+// reported as a write/write race (a shared backing array is invisible to the field hooks: each copy of the
+// struct has a slice header of its own).
+func SA[S ~[]E, E any](s S, name string) S {
+	if sc := Cur(); sc != nil && cap(s) > len(s) {
+		sc.access(unsafe.Pointer(&s[:len(s)+1][len(s)]), name, true)
+	}
+	return s
+}
